@@ -88,6 +88,19 @@ func c04Gen(rng *rand.Rand, tier string) []Case {
 		c.Nontrivial = dup
 		out = append(out, c)
 	}
+	// user events and queries delivered repeatedly (the property covers them too): every filter kind × re-broadcast flag
+	k := 0
+	for _, filt := range []string{"none", "other", "tag"} {
+		for _, nb := range []string{"0", "1"} {
+			out = append(out, Case{ID: fmt.Sprintf("qd%d", k), Ops: []string{fmt.Sprintf("qrydup %d %s %s %d", 5+k, filt, nb, 2+rng.Intn(5))},
+				Nontrivial: true, Tags: []string{"query-duplicates"}})
+			k++
+		}
+	}
+	for j := 0; j < 4; j++ {
+		out = append(out, Case{ID: fmt.Sprintf("ud%d", j), Ops: []string{fmt.Sprintf("uevdup %d %s %d", 3+j, hexs(fmt.Sprintf("e%d", j)), 2+rng.Intn(5))},
+			Nontrivial: true, Tags: []string{"user-event-duplicates"}})
+	}
 	return out
 }
 
